@@ -22,6 +22,7 @@ limitations under the License.
 #include <string>         // std::string
 #include <thread>         // std::this_thread::get_id
 #include <unordered_set>  // std::unordered_set
+#include <utility>        // std::pair
 
 #include "optree/optree.h"
 
@@ -415,6 +416,77 @@ py::object PyTreeSpec::ToPickleable() const {
     }
     out->m_traversal.shrink_to_fit();
     PYTREESPEC_SANITY_CHECK(*out);
+
+    // Validate the node array: every later operation walks it by `arity`, `num_leaves` and
+    // `num_nodes` without bounds checks, so an inconsistent array must be rejected here.
+    // Replay the post-order traversal with a stack of (num_leaves, num_nodes) per pending subtree.
+    {
+        auto pending = reserved_vector<std::pair<ssize_t, ssize_t>>(4);
+        for (const Node& node : out->m_traversal) {
+            if (node.arity < 0 || node.arity > py::ssize_t_cast(pending.size())) [[unlikely]] {
+                throw std::runtime_error("Malformed pickled PyTreeSpec.");
+            }
+            ssize_t num_leaves = (node.kind == PyTreeKind::Leaf ? 1 : 0);
+            ssize_t num_nodes = 1;
+            for (ssize_t i = 0; i < node.arity; ++i) {
+                num_leaves += pending.back().first;
+                num_nodes += pending.back().second;
+                pending.pop_back();
+            }
+            if (node.num_leaves != num_leaves || node.num_nodes != num_nodes) [[unlikely]] {
+                throw std::runtime_error("Malformed pickled PyTreeSpec.");
+            }
+            switch (node.kind) {
+                case PyTreeKind::Leaf:
+                case PyTreeKind::None: {
+                    if (node.arity != 0 || (node.kind == PyTreeKind::None && none_is_leaf))
+                        [[unlikely]] {
+                        throw std::runtime_error("Malformed pickled PyTreeSpec.");
+                    }
+                    break;
+                }
+
+                case PyTreeKind::Dict:
+                case PyTreeKind::OrderedDict: {
+                    if (ListGetSize(py::reinterpret_borrow<py::list>(node.node_data)) !=
+                        node.arity) [[unlikely]] {
+                        throw std::runtime_error("Malformed pickled PyTreeSpec.");
+                    }
+                    break;
+                }
+
+                case PyTreeKind::DefaultDict: {
+                    if (!PyTuple_CheckExact(node.node_data.ptr()) ||
+                        PyTuple_GET_SIZE(node.node_data.ptr()) != 2 ||
+                        !PyList_Check(PyTuple_GET_ITEM(node.node_data.ptr(), 1)) ||
+                        PyList_GET_SIZE(PyTuple_GET_ITEM(node.node_data.ptr(), 1)) != node.arity)
+                        [[unlikely]] {
+                        throw std::runtime_error("Malformed pickled PyTreeSpec.");
+                    }
+                    break;
+                }
+
+                case PyTreeKind::Custom: {
+                    if (node.node_entries && TupleGetSize(node.node_entries) != node.arity)
+                        [[unlikely]] {
+                        throw std::runtime_error("Malformed pickled PyTreeSpec.");
+                    }
+                    break;
+                }
+
+                default:
+                    break;
+            }
+            if (node.original_keys && ListGetSize(node.original_keys) != node.arity)
+                [[unlikely]] {
+                throw std::runtime_error("Malformed pickled PyTreeSpec.");
+            }
+            pending.emplace_back(num_leaves, num_nodes);
+        }
+        if (pending.size() != 1) [[unlikely]] {
+            throw std::runtime_error("Malformed pickled PyTreeSpec.");
+        }
+    }
     return out;
 }
 // NOLINTEND[cppcoreguidelines-avoid-magic-numbers,readability-magic-numbers]
